@@ -394,8 +394,13 @@ fn judge_under<T: Sc>(idx: usize, l: &SuLine, rep: &mut Report) {
     let w: Option<Vec<T>> = if l.w.is_empty() { None } else { Some(l.w.iter().map(|&v| T::of64(v as f64)).collect()) };
     // (with the default threshold and with a caller's threshold that truncates part of the spectrum:
     // the count that matters is the number of basis functions, not a numerical rank)
-    for (par, thr) in [(false, None), (true, None), (false, Some(1.5f64)), (true, Some(0.6))] {
-        let flav = format!("under line={} fam={}({},{},{}) N={} {} par={} eps={:?}", idx, l.fam.name, l.fam.m, l.fam.p, l.fam.seed, n, T::NAME, par, thr);
+    // (also with blank data: all observations zero, or all weights zero - the verdict depends on the counts only)
+    let y0 = y.clone();
+    let w0 = w.clone();
+    for (par, thr, blank) in [(false, None, 0), (true, None, 0), (false, Some(1.5f64), 0), (true, Some(0.6), 0), (false, None, 1), (true, None, 2), (false, Some(0.6), 1)] {
+        let y = if blank == 1 { DMatrix::from_element(n, 1, T::zero()) } else { y0.clone() };
+        let w: Option<Vec<T>> = if blank == 2 { Some(vec![T::zero(); n]) } else { w0.clone() };
+        let flav = format!("under line={} fam={}({},{},{}) N={} {} par={} eps={:?}{}", idx, l.fam.name, l.fam.m, l.fam.p, l.fam.seed, n, T::NAME, par, thr, ["", " all observations zero", " all weights zero"][blank]);
         let built = match thr {
             None => make::<T>(MKind::Table, &l.fam, &table, &xs, &l.a, &y, w.as_deref(), par),
             Some(e) => build_problem(TableModel::new(table.clone(), &l.a), false, par, &y, w.as_deref(), Some(T::of64(e))).map_err(|e| format!("{e:?}")),
